@@ -439,6 +439,11 @@ func (c16) Run(ctx *Ctx, ci interface{}) (o Outcome) {
 				o.Fail("hang:"+pr.sr.BlockedFuncs(), "reference %q alone: the result stream was never closed\n%s", d.Orf, pr.sr.Stacks)
 				return
 			}
+			if pr.callErr != nil || firstErr(pr.results) != "" {
+				// the probe itself ended on the error path (a hit too short to translate): race reports of this run
+				// are outside what the statement promises, as for any run with an error
+				o.Add("alignment_error_reported", 1)
+			}
 			if pr.callErr == nil && firstErr(pr.results) == "" {
 				seen := map[string]int{}
 				for _, r := range pr.results {
